@@ -7,17 +7,28 @@ from typing import Any, Dict, List
 from harness import core, crnlib, graphlib as gl
 
 
-def project_d(G, node_attrs, edge_attrs, coder, ids):
-    """directed networkx graph -> abstract digraph (asymmetric adj)"""
+def project_d(G, node_attrs, edge_attrs, coder, ids, plain=False):
+    """directed networkx view -> abstract digraph with the SEMANTIC codes used by C18Cases.tla:
+    species 1 (101 with a self-loop), reaction 2; reactant arc 10 + stoich, product arc 50 + stoich, other arc 1"""
     idx = {v: k for k, v in enumerate(ids)}
     n = len(ids)
-    # a self-loop (species on both sides of a reaction, species view) is folded into the node label
-    loops = {u: tuple(gl._freeze(d.get(a)) for a in edge_attrs) for u, v, d in G.edges(data=True) if u == v}
-    lab = [coder.ncode((tuple(gl._freeze(G.nodes[v].get(a)) for a in node_attrs), ("loop", loops[v]) if v in loops else ())) for v in ids]
+
+    def ecode(d):
+        if plain:
+            return 1
+        role = d.get("role") if "role" in edge_attrs else None
+        st = d.get("stoich") if "stoich" in edge_attrs else None
+        base = {"reactant": 10, "product": 50}.get(role, 1)
+        return base + (int(st) if (st is not None and role is not None) else 0)
+    loops = {u for u, v in G.edges() if u == v}
+    lab = []
+    for v in ids:
+        kind = G.nodes[v].get("kind")
+        lab.append({"species": 1, "reaction": 2}.get(kind, 9) + (100 if v in loops else 0))
     adj = [[0] * n for _ in range(n)]
     for u, v, d in G.edges(data=True):
         if u != v:
-            adj[idx[u]][idx[v]] = coder.ecode(tuple(gl._freeze(d.get(a)) for a in edge_attrs))
+            adj[idx[u]][idx[v]] = ecode(d)
     return {"n": n, "lab": lab, "hc": [0] * n, "adj": adj}
 
 
@@ -52,6 +63,8 @@ def canon_case(inp):
     for cfg in cfgs:
         coder, coder2 = gl.Coder(), gl.Coder()
         r = {"cfg": "view=%s,stoich=%s" % ("bipartite" if cfg["rule"] else "species", cfg["stoich"]),
+             "bipartite": bool(cfg["rule"]), "stoich": bool(cfg["stoich"]),
+             "nets": [{"sp": n_["sp"], "rx": n_["rx"]} for n_ in nets], "align": [], "align_plain": [],
              "view": [], "cg": [], "cgids": [], "naut": [], "orbits": [], "aut_naut": [], "aut_orbits": [], "view_plain": []}
         for net, H in zip(nets, built):
             C = CRNCanonicalizer(H, include_rule=cfg["rule"], include_stoich=cfg["stoich"])
@@ -72,7 +85,13 @@ def canon_case(inp):
             ida = list(GA.nodes())
             ixa = {v: k + 1 for k, v in enumerate(ida)}
             sa = A.summary(max_count=10 ** 6, timeout_sec=None) if "max_count" in A.summary.__code__.co_varnames else A.summary()
-            r["view_plain"].append(project_d(GA, list(A.node_attr_keys), [], coder2, ida))
+            r["view_plain"].append(project_d(GA, list(A.node_attr_keys), [], coder2, ida, plain=True))
+
+            def align(index):
+                names = list(net["sp"]) + ([e["id"] for e in net["rx"]] if cfg["rule"] else [])
+                return [index.get(x, 0) for x in names]
+            r["align"].append(align(idx))
+            r["align_plain"].append(align(ixa))
             r["aut_naut"].append(int(sa["automorphism_count"]))
             r["aut_orbits"].append([sorted(ixa[v] for v in o) for o in sa["orbits"]])
         runs.append(r)
